@@ -303,6 +303,7 @@ fn op_kind(o: &Op) -> u8 {
         Op::SubFailContinue { unsub } => 182 + *unsub as u8,
         Op::AppAckBig { .. } => 184,
         Op::AppAckSoft { .. } => 185,
+        Op::PeerPubAfterClose { qos, .. } => 186 + qos,
         Op::Advance { .. } => 121,
         Op::Close { partial } => 122 + (*partial != 0) as u8,
         Op::Crash => 124,
@@ -802,7 +803,7 @@ fn gen_c16(rng: &mut Rng, tier: Tier, run: u64) -> (Case, Outcome) {
             op = Op::Connect { clean: i == 0 && rng.chance(1, 3) };
         }
         // the comparison needs the protocol model on both branches: no adversarial input here
-        if matches!(op, Op::PeerAfterClose { .. } | Op::PeerRaw { .. }) {
+        if matches!(op, Op::PeerAfterClose { .. } | Op::PeerPubAfterClose { .. } | Op::PeerRaw { .. }) {
             continue;
         }
         hist.push(op.clone());
